@@ -131,9 +131,9 @@ pub fn rich_class(rng: &mut Rng, cfg: &GenCfg, name: &str, nf: usize, nm: usize,
 pub fn simple_class(rng: &mut Rng, name: &str, nf: usize, nm: usize, ni: usize) -> Class {
     let descs = ["I", "J", "Ljava/lang/String;", "[B", "Z"];
     let mut c = Class { major: *rng.pick(&[49u16, 52, 61]), minor: 0, access: 0x0021, this_class: JS::new(name), super_class: Some(JS::new("java/lang/Object")), ..Default::default() };
-    for i in 0..nf { c.fields.push(Field { access: *rng.pick(&[0x0001u16, 0x0002, 0x0019, 0x0000]), name: JS::new(&format!("f{}", i % 7)), desc: JS::new(descs[(i / 7) % descs.len()]), ..Default::default() }); }
+    for i in 0..nf { c.fields.push(Field { access: *rng.pick(&[0x0001u16, 0x0002, 0x0019, 0x0000]), name: JS::new(&if i < 35 { format!("f{}", i % 7) } else { format!("f{}_{}", i % 7, i / 35) }), desc: JS::new(descs[(i / 7) % descs.len()]), ..Default::default() }); }
     for i in 0..nm {
-        let mut m = Method { access: 0x0401, name: JS::new(&format!("m{}", i % 5)), desc: JS::new(&format!("({})V", descs[(i / 5) % descs.len()])), ..Default::default() };
+        let mut m = Method { access: 0x0401, name: JS::new(&if i < 25 { format!("m{}", i % 5) } else { format!("m{}_{}", i % 5, i / 25) }), desc: JS::new(&format!("({})V", descs[(i / 5) % descs.len()])), ..Default::default() };
         if rng.chance(1, 3) { m.access = 0x0001; m.code = Some(Code { max_stack: 1, max_locals: 3, insns: vec![Insn::Op(177)], ..Default::default() }); }
         c.methods.push(m);
     }
